@@ -13,6 +13,22 @@ Theorem C02_rev_unique : forall ls d0, NoDup (dealt_revs (rrun ls (rinit d0))).
 Proof. exact dealt_unique. Qed.
 Print Assumptions C02_rev_unique.
 
+(* the allocator with Commit(rev) called by any number of threads with ANY revisions (leader hand-over,
+   follower sync: rev ahead of the counter), each Commit = store, load, compare-and-swap, interleaved
+   with Deal in any way: the dealt revisions strictly increase in the order of the Deal actions … *)
+Theorem C02_tso_increasing : forall ls d0,
+  sdecr (t_dealt (trun false ls (tinit d0)) + 1) (map snd (t_log (trun false ls (tinit d0)))).
+Proof. exact tso_dealt_increasing. Qed.
+Print Assumptions C02_tso_increasing.
+Theorem C02_tso_unique : forall ls d0, NoDup (map snd (t_log (trun false ls (tinit d0)))).
+Proof. exact tso_dealt_unique. Qed.
+Print Assumptions C02_tso_unique.
+(* … and the compare-and-swap is what makes it so: with a plain store the same schedule deals 13 twice *)
+Example C02_tso_plain_store_refuted :
+  map snd (t_log (trun true tso_plain_witness (tinit 10))) = [13; 13; 12; 11]
+  /\ map snd (t_log (trun false tso_plain_witness (tinit 10))) = [14; 13; 12; 11].
+Proof. exact tso_plain_store_refuted. Qed.
+
 (* KeySys: the revisions stamped on write attempts (EDealt entries, incl. the asynchronous rewrite's) are pairwise distinct *)
 Theorem C02_unique : forall cidx0 d0 store s, reach cidx0 d0 store s -> NoDup (dealt_log (log s)).
 Proof. exact k_unique. Qed.
@@ -85,6 +101,13 @@ Proof.
          [EInvoke 0 (RqUpdate 0 [9] 5); EDealt 1 11; EInvoke 1 (RqDelete 0 0)].
   vm_compute. reflexivity.
 Qed.
+(* the hypothesis of C02_realtime on a concrete history: thread 0's create returns, then thread 1 is invoked and dealt *)
+Example C02_ex_realtime :
+  let s := krun true [LInvoke 0 (RqCreate 2 [1]); LDeal 0; LEngine 0 EnvOk; LNotify 0; LReturn 0;
+                      LInvoke 1 (RqCreate 2 [2]); LDeal 1] (kinit 10 ex_store) in
+  log s = [] ++ EDealt 1 12 :: [] ++ EInvoke 1 (RqCreate 2 [2]) :: [] ++ EReturn 0 (RespCreate 11 true)
+          :: [ENotified 0 11 true; EApplied 0 (Some (RqCreate 2 [1])) 2 ACreate 11 false [1] None] ++ EDealt 0 11 :: [EInvoke 0 (RqCreate 2 [1])].
+Proof. vm_compute. reflexivity. Qed.
 (* a failure-path response whose header is the max of the allocated and the latest mod revision *)
 Example C02_ex_header : thr ex_state 1 = PReturn (RespDelete 12 false (Some ([9], 12))) /\ dealt_log (log ex_state) = [13; 12; 11].
 Proof. vm_compute. split; reflexivity. Qed.
